@@ -320,6 +320,8 @@ def run_path(fsrc, contract, registry, decisions, path_id, case):
                 args[pname] = case[pname]
             else:
                 args[pname] = ex.mk(ptype, pname)
+                if pname in contract.dynamic_types and isinstance(args[pname], SObj):
+                    args[pname]._ftypes.update(contract.dynamic_types[pname])
         a = NS(args)
         ex.args_ns = a
         for rname, rfn in contract.requires:
@@ -436,7 +438,13 @@ def verify_function(contract: Contract, registry: dict, known_ids=frozenset(), r
                                 r.status = "spurious"
                                 r.detail = "counter-model does not replay on the real function"
                         else:
+                            # loop / call-site obligation: the model is a loop-head or call state; its
+                            # function-input part is still tried on the real function against every ensures
                             r.status = "violated-noinput"
+                            if replay:
+                                r.replay = _replay(fsrc, contract, ex, args, model, None, case)
+                                if r.replay.get("confirmed"):
+                                    r.status = "violated"
                         r.detail = r.detail or ";".join(ex.shape)
                     rep.results.append(r)
             rep.paths = path_id
@@ -444,6 +452,8 @@ def verify_function(contract: Contract, registry: dict, known_ids=frozenset(), r
         rep.canary_ok = covered > 0
     except OutOfSubset as e:
         rep.out_of_subset = str(e)
+    except AttributeError as e:
+        rep.out_of_subset = f"contract drift (a name the contract binds no longer exists): {e}"
     except Exception as e:
         rep.error = f"{type(e).__name__}: {e}\n{traceback.format_exc()[-1500:]}"
     rep.wall_s = time.time() - t0
@@ -490,6 +500,11 @@ def _replay(fsrc, contract, ex, args, model, ob, case):
             else:
                 res = fn(**call_args)
             info["result"] = _show(res)
+            if ob is None:
+                bad = [n for n, efn in contract.ensures if not efn(a, res)]
+                info["failed_ensures"] = bad
+                info["confirmed"] = bool(bad)
+                return info
             if ob.kind == "raises":
                 info["spurious"] = "real function returned normally"
                 return info
@@ -500,7 +515,13 @@ def _replay(fsrc, contract, ex, args, model, ob, case):
             info["confirmed"] = not bool(ok)
         except Exception as e:  # real function raised
             info["raised"] = f"{type(e).__name__}: {e}"
-            if ob.kind == "raises":
+            if ob is None:
+                en = type(e).__name__
+                if en not in contract.raises:
+                    info["confirmed"] = True
+                elif contract.raises[en] is not None:
+                    info["confirmed"] = not bool(contract.raises[en](a))
+            elif ob.kind == "raises":
                 en = type(e).__name__
                 if ob.name.startswith("no-raise") and ob.name == f"no-raise[{en}]":
                     info["confirmed"] = True
